@@ -24,6 +24,8 @@ pub struct Shared {
     pub wlock_sp: std::sync::atomic::AtomicBool,
     /// number of threads currently parked at such a switch point
     pub write_held: std::sync::atomic::AtomicUsize,
+    /// write records the maintenance pass in progress has applied so far (0 between passes)
+    pub pass_applied: std::sync::atomic::AtomicUsize,
 }
 
 impl Shared {
@@ -134,9 +136,15 @@ impl Hooks for SimHooks {
         if let Some(s) = &self.sched {
             s.lock_enter(self.tid, lock);
         }
+        if lock == "deques" {
+            self.shared.pass_applied.store(0, std::sync::atomic::Ordering::SeqCst);
+        }
     }
 
     fn lock_exit(&self, lock: &'static str) {
+        if lock == "deques" {
+            self.shared.pass_applied.store(0, std::sync::atomic::Ordering::SeqCst);
+        }
         if let Some(s) = &self.sched {
             s.lock_exit(self.tid, lock);
         }
@@ -205,7 +213,10 @@ impl Hooks for SimHooks {
         }
         match id {
             "apply.hit" => self.shared.applied.lock().unwrap().push((0, _arg)),
-            "apply.upsert" => self.shared.applied.lock().unwrap().push((1, _arg)),
+            "apply.upsert" => {
+                self.shared.pass_applied.fetch_add(1, std::sync::atomic::Ordering::SeqCst);
+                self.shared.applied.lock().unwrap().push((1, _arg))
+            }
             "rotate" => self.shared.applied.lock().unwrap().push((2, _arg)),
             _ => {}
         }
